@@ -154,6 +154,17 @@ def check(files, truth, run, rundir):
                                                 % (pre, tname, rid, nloc, live))
                             else:
                                 problems.append("%s%s: read %s contributes a total weight of %.3f (> 1)" % (pre, tname, rid, live))
+                # "such reads": a read counted as ambiguous is shared by >= 2 features (over all its reported lines)
+                union = collections.defaultdict(set)
+                for a in als:
+                    if a.read_id in amb_reads:
+                        atype = a.ttype if level == "t" else a.gtype
+                        if atype not in UNASSIGNED:
+                            union[a.read_id].update(a.isoforms if level == "t" else a.genes)
+                for rid in sorted(amb_reads):
+                    if len(union[rid]) == 1:
+                        problems.append("%s%s: read %s is counted as ambiguous although every reported assignment of it names "
+                                        "the single feature %s" % (pre, tname, rid, sorted(union[rid])[0]))
                 st = table[1]
                 if "__ambiguous" in st:
                     v = int(st["__ambiguous"])
